@@ -351,10 +351,36 @@ pub fn gen_frames(r: &mut Rng) -> MScn {
     if debug {
         // register signatures for a few plausible callee addresses (subroutine starts are
         // unknown to the generator, so it registers a spread of addresses near the program)
+        let mut targets: Vec<u16> = vec![];
+        // exact subroutine entry points of a structured program (looked up in its symbol table;
+        // a failure here only means fewer registered signatures)
+        if let Some(src) = s.srcs.first() {
+            if let Ok(Ok(o)) = crate::runner::guarded(|| assemble_src(&SrcSpec { text: src.text.clone(), debug: true })) {
+                if let Some(st) = o.symbol_table() {
+                    for k in 0..3 {
+                        if let Some(a) = st.lookup_label(&format!("SUB{k}")) {
+                            targets.push(a);
+                        }
+                    }
+                }
+            }
+        }
+        // callee addresses of the raw call sequences at x60xx
+        for (a, ws) in &s.pokes {
+            if (0x6000..0x6200).contains(a) {
+                for k in 0..ws.len() as u16 {
+                    targets.push(a.wrapping_add(k));
+                }
+            }
+        }
         for _ in 0..r.below(6) {
-            let a = if r.bool() { 0x3000 + r.below(0x100) as u16 } else { 0x6000 + r.below(0x10) as u16 };
+            let a = if !targets.is_empty() && r.chance(3, 4) { *r.pick(&targets) } else if r.bool() { 0x3000 + r.below(0x100) as u16 } else { 0x6000 + r.below(0x10) as u16 };
             let sig = if r.bool() { SigS::Cc(r.below(5) as u8) } else { SigS::Regs((0..r.below(4)).map(|_| r.below(6) as u8).collect()) };
             s.ops.insert(0, Op::SubDef(a, sig));
+        }
+        // interrupt vectors can carry signatures too (looked up for interrupt frames; arguments are D8)
+        if r.chance(1, 4) {
+            s.ops.insert(0, Op::SubDef(0x100 + r.below(0x100) as u16, SigS::Regs(vec![0])));
         }
     }
     s
